@@ -24,7 +24,7 @@ T = {
             "Lean 4 proof (refinement to a map) + differential correspondence (seqdrv)"),
     "C03": ("Lean theorems: exactly the documented invalid ranges/argument combinations are rejected (range_check_iff, scan_bad_usage_iff) on the mirrored scan; the full scan_spec theorem (result = filter of the in-order content) is being proved and is listed in the evidence once installed. Tied to the code by differential scan batteries (endpoints at slice boundaries, prefixes, >255-byte keys, all endpoint kinds, max_size, right-to-left) against the Lean model and an independent Python reference.",
             COMMON, "Lean 4 proof + differential correspondence (seqdrv) + reference oracle"),
-    "C04": ("Lean theorems on the NodeSet chain model (inserts and splits, any number of writers/scanners): a finished scan is strictly ascending and inside its interval, every returned key was present, every key stored before the scan started is returned (no stable key lost), keys not returned were absent when the scan started. Values/removes are not in that model: per-key consistency of returned values under removes and overwrites is checked on the real code by scheduler-driven histories in which every scan result is folded into per-key reads and searched for a linearization (workloads aimed at the node under the scanner: edge borders emptied and unlinked, absorbed ranges, next-layer roots split or deleted). Proto/Absorb models the repaired skip rule of D13.",
+    "C04": ("Lean theorems on the NodeSet chain model (inserts and splits, any number of writers/scanners): a finished scan is strictly ascending and inside its interval, every returned key was present, every key stored before the scan started is returned (no stable key lost), keys not returned were absent when the scan started. Values/removes are not in that model: per-key consistency of returned values under removes and overwrites is checked on the real code by scheduler-driven histories in which every scan result is folded into per-key reads and searched for a linearization (workloads aimed at the node under the scanner: edge borders emptied and unlinked, absorbed ranges, next-layer roots split or deleted). Proto/Absorb (removes that unlink a leaf whose range a neighbour absorbs; the repaired skip rule of D13 keeps the result ascending and loses no stable key) is tied to the code by outcome-set inclusion: every scan result observed under the scheduler must be one the model produces under some interleaving.",
             COMMON + SC, "Lean 4 proof (protocol model) + deterministic-scheduler history checking"),
     "C05": ("Lean theorems on the sequential model: an insert bumps the counters of its landing leaf; a get miss reports exactly that leaf with its current counters; (scan_nodes_cover as far as installed — see evidence). Counterexample for the unrepaired scan (D2). Tied to the code by differential comparison of every collected (version,node) list and by a direct phantom oracle: after a read, absent keys of the covered interval are inserted into the real tree and at least one collected pair must become stale.",
             COMMON, "Lean 4 proof + differential correspondence + direct phantom oracle (seqdrv)"),
